@@ -107,22 +107,28 @@ def coq_z(v):
     return str(v) if v >= 0 else "(%d)" % v
 
 
-def coq_eval_lists(ctx, name, header, body_defs, call):
-    """write a case file, run it, return the list of N printed for M (or None, log)"""
+def coq_eval_jobs(ctx, name, jobs):
+    """jobs: list of (definitions text using names suffixed by the caller, call text).  One coqc process evaluates all of
+    them (the fixed cost of a process - loading the libraries, compiling the model for the VM - dominates small jobs).
+    Returns (list of lists of N | None, log); log == "TIMEOUT" for an infrastructure timeout."""
     p = os.path.join(ctx.work, name + ".v")
     with open(p, "w") as f:
         f.write("From Coq Require Import ZArith List NArith.\nFrom Verif Require Import Base.C06_JsNum Model.C06_Prelude64 Model.C06_Spec "
                 "Gen.C06_Tables Model.C06_Templates Corr.C06_Eval.\nImport ListNotations.\nLocal Open Scope Z_scope.\n")
-        f.write(header)
-        f.write(body_defs)
-        f.write("Definition M := Eval vm_compute in %s.\nPrint M.\n" % call)
+        for j, (defs, call) in enumerate(jobs):
+            f.write(defs)
+            f.write("Definition M%d := Eval vm_compute in %s.\nPrint M%d.\n" % (j, call, j))
     rc, out = C.coq_run(p, timeout=900 if ctx.quick else 3600)
     if rc == 124 or "[timeout after" in out[-200:]:
         return None, "TIMEOUT"
-    m = re.search(r"M\s*=\s*(\[[^\]]*\])", out.replace("\n", " "))
-    if rc != 0 or not m:
-        return None, out[-1200:]
-    return [int(x) for x in re.findall(r"\d+", m.group(1).replace("%N", ""))], ""
+    flat = out.replace("\n", " ")
+    res = []
+    for j in range(len(jobs)):
+        m = re.search(r"M%d\s*=\s*(\[[^\]]*\])" % j, flat)
+        if rc != 0 or not m:
+            return None, out[-1200:]
+        res.append([int(x) for x in re.findall(r"\d+", m.group(1).replace("%N", ""))])
+    return res, ""
 
 
 # --------------------------------------------------------------------------- (a) helpers
@@ -223,50 +229,45 @@ def helpers(ctx):
     ctx.cov["helper_calls_vs_bigint"] = ncalls
     ctx.sample(dict(kind="helper", job="mul/1/full", x=jobsby["mul/1/full"]["xs"][5], rows=len(results["mul/1/full"]["digests"])))
 
-    # ---- the same rows through the Coq model
-    work = []
+    # ---- the same rows through the Coq model: one coqc process per signedness
+    files = {True: [], False: []}
     for jid, job in jobsby.items():
         if not jid.endswith("/sub") or job["h"] == "ctorreal":
             continue
+        n = len(files[job["sg"]])
         ys = "[" + "; ".join("(%s, %s)" % (coq_z(a), coq_z(b)) for a, b in job["ys"]) + "]"
-        xs = job["xs"]
-        shard = 10 if job["h"] in ("quo", "rem") else 40
-        for s in range(0, len(xs), shard):
-            rows = "[" + "; ".join("(%s, %s, %d)" % (coq_z(x[0]), coq_z(x[1]), d) for x, d in zip(xs[s:s + shard], results[jid]["digests"][s:s + shard])) + "]"
-            work.append((jid, s, ys, rows, job))
+        rows = "[" + "; ".join("(%s, %s, %d)" % (coq_z(x[0]), coq_z(x[1]), d) for x, d in zip(job["xs"], results[jid]["digests"])) + "]"
+        defs = "Definition ys%d : list (Z * Z) := %s.\nDefinition rows%d : list (Z * Z * Z) := %s.\n" % (n, ys, n, rows)
+        files[job["sg"]].append((defs, "bad_hrows %s %s ys%d rows%d" % (HNAME[job["h"]], "true" if job["sg"] else "false", n, n), job))
     real_rows = []
     for sg in (True, False):
         jid = "ctorreal/%d/sub" % sg
         for (n, d), got in zip(jobsby[jid]["ys"], results[jid]["raw"]):
             if isinstance(got, list):
                 real_rows.append("(%s, %s, %s, %s, %s)" % ("true" if sg else "false", coq_z(n), coq_z(d), coq_z(got[0]), coq_z(got[1])))
+    files[True].append(("Definition rrows := [%s].\n" % "; ".join(real_rows), "bad_reals rrows", None))
 
-    def run(i):
-        if i == len(work):
-            return "ctorreal", coq_eval_lists(ctx, "hreal", "", "Definition rows := [%s].\n" % "; ".join(real_rows), "bad_reals rows")
-        jid, s, ys, rows, job = work[i]
-        return (jid, s), coq_eval_lists(ctx, "h%d" % i, "", "Definition ys : list (Z * Z) := %s.\nDefinition rows : list (Z * Z * Z) := %s.\n" % (ys, rows),
-                                        "bad_hrows %s %s ys rows" % (HNAME[job["h"]], "true" if job["sg"] else "false"))
+    def run(sg):
+        return sg, coq_eval_jobs(ctx, "h_%d" % sg, [(d, c) for d, c, _ in files[sg]])
 
     nrows = 0
-    for key, (bad, log) in C.parallel_map(run, range(len(work) + 1)):
-        if bad is None:
+    for sg, (res, log) in C.parallel_map(run, [True, False]):
+        if res is None:
             if log == "TIMEOUT":
-                ctx.notes.append("helper model rows skipped: Coq evaluation timed out (%s)" % (key,))
+                ctx.notes.append("helper model rows skipped: Coq evaluation timed out (signed=%s)" % sg)
             else:
-                ctx.violation("model-eval-failed", "Coq evaluation of the helper model failed", dict(job=str(key), log=log), concrete=False)
+                ctx.violation("model-eval-failed", "Coq evaluation of the helper model failed", dict(signed=sg, log=log), concrete=False)
             continue
-        if key == "ctorreal":
-            nrows += len(real_rows)
+        for (defs, call, job), bad in zip(files[sg], res):
+            if job is None:
+                nrows += len(real_rows)
+                for i in bad[:2]:
+                    ctx.violation("ctor-real-model-mismatch", "model and constructor disagree on new $Int64/$Uint64(0, n/d)", dict(kind="ctorreal", row=real_rows[i]), concrete=False)
+                continue
+            nrows += len(job["xs"])
             for i in bad[:2]:
-                ctx.violation("ctor-real-model-mismatch", "model and constructor disagree on new $Int64/$Uint64(0, n/d)", dict(kind="ctorreal", row=real_rows[i]), concrete=False)
-            continue
-        jid, s = key
-        job = jobsby[jid]
-        nrows += min(len(job["xs"]) - s, 40)
-        for i in bad[:2]:
-            ctx.violation("helper-model-mismatch", "model and prelude helper %s disagree on the row x=%r (all y of the grid)" % (job["h"], job["xs"][s + i]),
-                          dict(kind="helper-row", h=job["h"], sg=job["sg"], x=job["xs"][s + i], correspondence="Corr/C06_Eval.call_helper vs compiler/prelude/numeric.js"), concrete=False)
+                ctx.violation("helper-model-mismatch", "model and prelude helper %s disagree on the row x=%r (all y of the grid)" % (job["h"], job["xs"][i]),
+                              dict(kind="helper-row", h=job["h"], sg=job["sg"], x=job["xs"][i], correspondence="Corr/C06_Eval.call_helper vs compiler/prelude/numeric.js"), concrete=False)
     ctx.cov["helper_rows_vs_model"] = nrows
 
 
@@ -428,7 +429,7 @@ def programs(ctx):
     quick = ctx.quick
     res = [x for x in C.parallel_map(lambda k: kind_program(ctx, k), X.KINDS) if x]
     ctx.log("programs built and run")
-    work = []
+    work = {}
     r = ctx.rng("coqrows")
     tot = dict(rows=0, evals=0, panics=0)
     for pr in res:
@@ -444,19 +445,16 @@ def programs(ctx):
         for si, (exprs, grid, prefix, leaf) in enumerate(pr["sections"]):
             rows = pr["coq_rows"][si]
             # Coq evaluates a sample of rows (x values) per expression: the boundary rows plus random ones
-            budget = (8 if si == 0 else 3) if quick else (64 if si == 0 else 24)
+            budget = (4 if si == 0 else 2) if quick else (64 if si == 0 else 24)
             byexpr = {}
             for row in rows:
                 byexpr.setdefault(row[0], []).append(row)
             rows = []
             for ei, rs in byexpr.items():
                 keep = [x for x in rs if x[1] in (X.kmin(k), X.kmax(k), 0, -1)]
-                if si >= 1:
-                    keep = keep[:2] if quick else keep
+                keep = keep[:2] if quick else keep
                 rows += keep + r.sample(rs, min(budget, len(rs)))
-            per = max(1, ((120000 if quick else 200000) // (3 if X.BITS[k] == 64 else 1)) // max(1, len(grid)))
-            for s in range(0, len(rows), per):
-                work.append((k, si, exprs, grid, rows[s:s + per]))
+            work.setdefault(k, []).append((si, exprs, grid, rows))
         for e in pr["sections"][0][0][:3]:
             ctx.distinct.add(C.sha(k + X.go(e))[:16])
     ctx.cov["program_expression_evaluations"] = tot["evals"]
@@ -465,38 +463,36 @@ def programs(ctx):
     if res:
         ctx.sample(dict(kind="expr", base=res[0]["k"], go=res[0]["sample"][0], grid_head=res[0]["sample"][1]))
 
-    def run(i):
+    def run(k):
+        jobs = []
+        for si, exprs, grid, rows in work[k]:
+            defs = "Definition exprs%d : list gexpr := [%s].\nDefinition grid%d : list Z := [%s].\nDefinition rows%d : list (nat * Z * Z) := [%s].\n" % (
+                si, ";\n ".join(X.coq(e) for e in exprs), si, "; ".join(coq_z(v) for v in grid), si,
+                "; ".join("(%d%%nat, %s, %d)" % (ei, coq_z(x), X_digest(toks)) for ei, x, toks, _ in rows))
+            jobs.append((defs, "bad_rows %s exprs%d grid%d rows%d" % (k, si, si, si)))
         t0 = time.time()
-        try:
-            return run1(i)
-        finally:
-            if time.time() - t0 > 60:
-                ctx.log("slow model shard %d: %.0fs (kind %s, %d rows x %d)" % (i, time.time() - t0, work[i][0], len(work[i][4]), len(work[i][3])))
-
-    def run1(i):
-        k, si, exprs, grid, rows = work[i]
-        defs = "Definition exprs : list gexpr := [%s].\nDefinition grid : list Z := [%s].\nDefinition rows : list (nat * Z * Z) := [%s].\n" % (
-            ";\n ".join(X.coq(e) for e in exprs), "; ".join(coq_z(v) for v in grid),
-            "; ".join("(%d%%nat, %s, %d)" % (ei, coq_z(x), X_digest(toks)) for ei, x, toks, _ in rows))
-        return i, coq_eval_lists(ctx, "p%d" % i, "", defs, "bad_rows %s exprs grid rows" % k)
+        res = coq_eval_jobs(ctx, "p_" + k, jobs)
+        ctx.log("model evaluation kind %s: %.0fs" % (k, time.time() - t0))
+        return k, res
 
     nrows = nevals = 0
-    ctx.log("model evaluation: %d shards, %d rows, %d evaluations" % (len(work), sum(len(w[4]) for w in work), sum(len(w[4]) * len(w[3]) for w in work)))
-    for i, (bad, log) in C.parallel_map(run, range(len(work))):
-        k, si, exprs, grid, rows = work[i]
-        if bad is None:
+    ctx.log("model evaluation: %d processes, %d rows, %d evaluations" % (len(work), sum(len(w[3]) for ws in work.values() for w in ws),
+                                                                         sum(len(w[3]) * len(w[2]) for ws in work.values() for w in ws)))
+    for k, (mres, log) in C.parallel_map(run, list(work)):
+        if mres is None:
             if log == "TIMEOUT":
-                ctx.notes.append("model rows skipped: Coq evaluation timed out (kind %s, %d rows)" % (k, len(rows)))
+                ctx.notes.append("model rows skipped: Coq evaluation timed out (kind %s)" % k)
             else:
                 ctx.violation("model-eval-failed", "Coq evaluation of the model failed (kind %s)" % k, dict(log=log), concrete=False)
             continue
-        nrows += len(rows)
-        nevals += len(rows) * len(grid)
-        for bi in bad[:2]:
-            ei, x, d, key = rows[bi]
-            ctx.violation("program-model-mismatch", "model and compiled program disagree on `%s` (kind %s) in the row x=%d" % (X.go(exprs[ei]), k, x),
-                          dict(kind="expr-row", base=k, expr=list_tree(exprs[ei]), go=X.go(exprs[ei]), x=x,
-                               correspondence="Corr/C06_Eval.eval over Gen/C06_Tables vs the compiled program"), concrete=False)
+        for (si, exprs, grid, rows), bad in zip(work[k], mres):
+            nrows += len(rows)
+            nevals += len(rows) * len(grid)
+            for bi in bad[:2]:
+                ei, x, toks, key = rows[bi]
+                ctx.violation("program-model-mismatch", "model and compiled program disagree on `%s` (kind %s) in the row x=%d" % (X.go(exprs[ei]), k, x),
+                              dict(kind="expr-row", base=k, expr=list_tree(exprs[ei]), go=X.go(exprs[ei]), x=x,
+                                   correspondence="Corr/C06_Eval.eval over Gen/C06_Tables vs the compiled program"), concrete=False)
     ctx.cov["model_rows_vs_program"] = nrows
     ctx.cov["model_evaluations_vs_program"] = nevals
     # distinct non-trivial cases: count per (kind, expression, x-row) digest
